@@ -115,6 +115,12 @@ func (x *Exec) special(s *State, fr *Frame, fn *types.Func, name string, recv Va
 			unsup("crc of opaque bytes")
 		}
 		return &Scalar{T: x.seqFunc("crc", BV(32), x.ctx.Share(x.inner(s, "uint8", BV(8), b.Rgn)), b.Off, b.Len)}, true
+	case name == "github.com/cespare/xxhash/v2.Sum64" && !x.opaque:
+		b, ok := args[0].(*SliceV)
+		if !ok {
+			unsup("xxhash of opaque bytes")
+		}
+		return &Scalar{T: x.seqFunc("xxh64", BV(64), x.ctx.Share(x.inner(s, "uint8", BV(8), b.Rgn)), b.Off, b.Len)}, true
 	case name == "(github.com/cockroachdb/pebble/internal/crc.CRC).Value":
 		// Value() is a fixed bijective mix of the state; modelled as the identity on the
 		// abstract checksum (both sides of every comparison apply it)
